@@ -417,6 +417,11 @@ def _contract_gcxs(arg, shape=None, compressed_axes=None, **k):
     if not all(_is_int(s) and s >= 0 for s in shp):
         _reject("shape")
     _contract_caxes(np.empty(shp), compressed_axes=compressed_axes)
+    if len(shp) == 0:
+        # a 0-d GCXS keeps COO-style coordinates of shape (0, nnz) as its indices (what from_coo hands over); nothing else is well-formed
+        if data.ndim != 1 or not (indices.shape == (0, len(data)) or (len(data) == 0 and indices.size == 0)):
+            _reject("0-d indices")
+        return
     if data.ndim != 1 or indices.ndim != 1 or len(data) != len(indices):
         _reject("data/indices length")
     if len(shp) >= 2:
